@@ -370,7 +370,10 @@ let run_ksim (dump : Stdlib.String.t list) (hist : Stdlib.String.t) (out : Buffe
           let code = n_of_int (int_of_string rest) in
           let ev = (match kind with 'd' -> IPress code | 'u' -> IRelease code | 'r' -> IRepeat code | _ -> ITap code) in
           let (k', evs) = unwrap (k_input cfg !k ev) in
-          k := k'; pending := !pending @ List.map fmt_ev evs
+          k := k';
+          if kind = 'r' then
+            Buffer.add_string out (Printf.sprintf "R@%d %s : %s\n" !tick rest (String.concat " " (List.map fmt_ev evs)))
+          else pending := !pending @ List.map fmt_ev evs
         | 'v' ->
           (match String.split_on_char ',' rest with
            | [op; x; y] ->
